@@ -1,24 +1,18 @@
 #!/bin/bash
 # Runs every stored behaviour-preserving patch (/verif/benign/*.diff) against the quick
-# checks of all properties anchored in the package(s) the patch touches.  A VIOLATION
-# line here is a false alarm of the machinery.
+# checks of the properties whose ledgers list a function the patch touches (hunk headers
+# and added/removed `func` lines).  A VIOLATION line here is a false alarm of the machinery.
 cd /verif
-for d in benign/*.diff; do
+for d in ${@:-benign/*.diff}; do
   name=$(basename $d .diff)
-  files=$(grep '^+++ b/' $d | sed 's|^+++ b/||')
+  fns=$( (grep -o '^@@.*func \(([^)]*) \)\?[A-Za-z0-9_]*' $d; grep -o '^[-+ ]func \(([^)]*) \)\?[A-Za-z0-9_]*' $d) | sed 's/.*func \(([^)]*) \)\?//' | sort -u)
   props=""
-  for f in $files; do
-    case $f in
-      m3/thriftudp/*) props="$props C15" ;;
-      m3/*) props="$props C12 C13 C14 C16" ;;
-      prometheus/*) props="$props C17" ;;
-      statsd/*) props="$props C18" ;;
-      multi/*) props="$props C19" ;;
-      thirdparty/*) props="$props C16" ;;
-      instrument/*) props="$props C10" ;;
-      *) props="$props C01 C02 C03 C04 C05 C06 C07 C08 C09 C10 C11 C20" ;;
-    esac
+  for f in $fns; do
+    for l in ledger/C*.json; do
+      if grep -q "[.)]$f\(\$[0-9]*\)\?\"" $l; then props="$props $(basename $l .json)"; fi
+    done
   done
   props=$(echo $props | tr ' ' '\n' | sort -u | tr '\n' ' ')
+  [ -z "$props" ] && { echo "$name: no property lists a touched function ($fns)"; continue; }
   tools/benign_eval.sh $name /verif/$d $props 2>&1 | grep -v WARNING
 done
